@@ -48,6 +48,9 @@ class _SktimeForecaster(BaseForecaster):
             Exogenous time series
         """
         # set initial training data
+        # `_set_y_X` opens every `fit`: fitting always starts from the unfitted
+        # state, so that calling `fit` on a fitted forecaster is a plain refit
+        self._is_fitted = False
         self._y, self._X = check_y_X(
             y, X, allow_empty=False, enforce_index_type=enforce_index_type
         )
@@ -380,9 +383,7 @@ class _SktimeForecaster(BaseForecaster):
                 f"`update` is called."
             )
             # refit with updated data, not only passed data
-            # `fh` is optional here: it may only be given later in `predict`;
-            # re-fitting starts from the unfitted state, like a first `fit`
-            self._is_fitted = False
+            # `fh` is optional here: it may only be given later in `predict`
             self.fit(self._y, self._X, self._fh)
         return self
 
